@@ -133,6 +133,8 @@ pub struct ModelState {
     pub tst_code: i16,
     /// per controller: output queue non-empty (previous response unread)
     pub outq: Vec<bool>,
+    /// plain IEEE 488.2 wiring: the status byte reports ESB, MAV and MSS only
+    pub plain488: bool,
 }
 
 impl ModelState {
@@ -164,6 +166,18 @@ impl ModelState {
     /// Status byte per C16's statement (bits 0/1 left 0). None if not predictable.
     pub fn stb(&self, mav: bool, reading: Reading) -> Option<u8> {
         let mut stb = 0u8;
+        if self.plain488 {
+            if mav {
+                stb |= 0x10;
+            }
+            if self.esr & self.ese != 0 {
+                stb |= 0x20;
+            }
+            if stb & self.sre & 0xBC != 0 {
+                stb |= 0x40;
+            }
+            return Some(stb);
+        }
         if !self.queue.items.is_empty() {
             stb |= 0x04;
         }
@@ -309,7 +323,22 @@ fn conv_unsigned(e: &Elem, max: u64) -> Conv {
                 _ => (false, &s[..]),
             };
             if digits.is_empty() || !digits.bytes().all(|c| c.is_ascii_digit()) {
-                return Conv::Unknown; // NR2/NR3 spelling: value-level conversion is C07 (n/a)
+                // NR2/NR3 spelling: only the cases no rounding rule can change are predicted
+                return match decimal_magnitude(digits) {
+                    Some(Magnitude::Huge) => Conv::Err(ExpErr::ExecClass),
+                    // an integer written with a fraction part or exponent is still that integer
+                    Some(Magnitude::Integer(v)) => {
+                        if v == 0 {
+                            Conv::Val(0)
+                        } else if neg || v > max as u128 {
+                            Conv::Err(ExpErr::ExecClass)
+                        } else {
+                            Conv::Val(v as u64)
+                        }
+                    }
+                    // a fraction: rounding is value-level conversion (C07, n/a)
+                    _ => Conv::Unknown,
+                };
             }
             let v: u128 = match digits.parse() {
                 Ok(v) => v,
@@ -317,7 +346,7 @@ fn conv_unsigned(e: &Elem, max: u64) -> Conv {
             };
             if neg {
                 if v == 0 {
-                    Conv::Unknown // "-0": C07 territory
+                    Conv::Val(0)
                 } else {
                     Conv::Err(ExpErr::ExecClass)
                 }
@@ -351,6 +380,56 @@ fn conv_unsigned(e: &Elem, max: u64) -> Conv {
         }
         Elem::Raw(_) => Conv::Unknown,
     }
+}
+
+enum Magnitude {
+    /// far beyond any integer type (more than 40 integer digits)
+    Huge,
+    /// exactly this integer
+    Integer(u128),
+    /// has a fractional part
+    Fraction,
+}
+
+/// Magnitude of an unsigned decimal literal `digits[.digits][E[+-]digits]`, exactly.
+fn decimal_magnitude(s: &str) -> Option<Magnitude> {
+    let (mant, exp) = match s.find(|c| c == 'e' || c == 'E') {
+        Some(i) => (&s[..i], s[i + 1..].parse::<i64>().ok()?),
+        None => (s, 0i64),
+    };
+    let (ip, fp) = match mant.find('.') {
+        Some(i) => (&mant[..i], &mant[i + 1..]),
+        None => (mant, ""),
+    };
+    if !ip.bytes().all(|c| c.is_ascii_digit()) || !fp.bytes().all(|c| c.is_ascii_digit()) || (ip.is_empty() && fp.is_empty()) {
+        return None;
+    }
+    let mut digits: String = format!("{}{}", ip, fp);
+    let mut e = exp - fp.len() as i64;
+    // strip trailing zeros into the exponent, leading zeros away
+    while digits.len() > 1 && digits.ends_with('0') {
+        digits.pop();
+        e += 1;
+    }
+    let digits = digits.trim_start_matches('0');
+    if digits.is_empty() {
+        return Some(Magnitude::Integer(0));
+    }
+    if e < 0 {
+        // integer part has digits.len() + e digits
+        if digits.len() as i64 + e > 40 {
+            return Some(Magnitude::Huge);
+        }
+        return Some(Magnitude::Fraction);
+    }
+    if digits.len() as i64 + e > 38 {
+        return Some(Magnitude::Huge);
+    }
+    let mut v: u128 = digits.parse().ok()?;
+    for _ in 0..e {
+        v = v.checked_mul(10)?;
+    }
+    Some(Magnitude::Integer(v))
 }
 
 struct Interp<'a> {
@@ -408,7 +487,9 @@ impl<'a> Interp<'a> {
             self.begin_response_unit();
         }
         if let Some(hw) = &plan.hw {
-            self.st.reg(hw.reg).set_condition(hw.value);
+            let g = self.st.reg(hw.reg);
+            let t = hw.target(g.cond);
+            g.set_condition(t);
         }
         let fail_at = |ph: Phase| -> Option<ExpErr> {
             plan.fail.as_ref().and_then(|f| {
@@ -479,7 +560,12 @@ impl<'a> Interp<'a> {
                 } else if !plan.hdr.is_empty() {
                     text.push(b' ');
                 }
-                match datum_text(d) {
+                let dt = match d {
+                    // an error/event queue item is two response data elements: <NR1>,<string>
+                    Datum::Err(spec) => Ok(render_item(&spec_obs(spec))),
+                    other => datum_text(other),
+                };
+                match dt {
                     Ok(t) => text.extend_from_slice(&t),
                     Err(e) => {
                         // the datum itself cannot be formatted: handler's finish returns that
